@@ -7,7 +7,7 @@ from typing import Any
 from .. import lexstate as LX
 from ..charclass import S, members
 from ..core import PKG, Report
-from ..domain import (CONFIG, CONST, ENUM, IDENT, JSONREPR, NUM, PYREPR, RAW, RAW_NONSTR, REPR_OF_ESC, UNKNOWN, WORD,
+from ..domain import (CONFIG, CONST, ENUM, IDENT, JSONREPR, NONFINITE, NUM, PYREPR, RAW, RAW_NONSTR, REPR_OF_ESC, UNKNOWN, WORD,
                       is_esc)
 from ..astutil import Locals, local_names
 from ..pyindex import dotted
@@ -57,6 +57,8 @@ def run(rep: Report, ctx: Any) -> str:
     rep.rule("R05.3", "Value.python_code is built from reprs / checked numbers / sanitised names / literals, never pasted")
     rep.rule("R05.4", "escaped text is not escaped a second time by repr() (run-time value would differ from the document)")
     rep.rule("R05.5", "sanitiser alphabets (E6) contain no character that can break any context they are emitted in")
+    rep.rule("R05.6", "a float is rendered into code (Value.python_code, a code-context hole) only on paths on which math.isfinite - or "
+                      "isinf and isnan - has excluded infinities and NaN: their str()/repr() are the bare names `inf` / `nan`")
 
     rep.floor("templates", len(ctx.jinja.templates), 30)
     rep.floor("emission_holes", len(ji.emissions), 380)
@@ -125,6 +127,11 @@ def run(rep: Report, ctx: Any) -> str:
         for l in e.labels:
             if l in ALWAYS_OK:
                 continue
+            if l == NONFINITE:
+                # `inf` / `nan` are harmless as text (strings, comments) but are names, not literals, where code is expected
+                if e.kind == "CODE":
+                    bad.add(l)
+                continue
             if l == REPR_OF_ESC and e.kind in ('STR3"', 'RSTR3"') and "'" not in e.kind:
                 # repr of dq-escaped text: every '"' is preceded by a doubled backslash and the repr ends with its own
                 # quote, so it can neither form '"""' nor end in a backslash; with FACT:nb it contains no quote at all
@@ -184,6 +191,10 @@ def run(rep: Report, ctx: Any) -> str:
         rep.check(not pasted, "R05.3", line_key,
                   f"python_code contains text labelled {sorted(pasted)} (document text pasted into code)", where=where,
                   lhs=sorted(pc.labels), rhs="PYREPR/NUM/IDENT/CONST only")
+        rep.check(NONFINITE not in pc.labels, "R05.6", line_key,
+                  "python_code is str()/repr() of a float that is not known to be finite on this path: an infinity or NaN in the document "
+                  "(YAML `.inf`, \"1e999\") is pasted as the bare name `inf` / `nan`", where=where,
+                  lhs=sorted(pc.labels), rhs="math.isfinite (or isinf and isnan) excluded before the value is rendered")
         rep.check(REPR_OF_ESC not in pc.labels, "R05.4", line_key,
                   "repr() is applied to text that was already escaped: the run-time value differs from the document's",
                   where=where, lhs=sorted(pc.labels), rhs="no REPR_OF_ESC")
